@@ -397,10 +397,49 @@ def F(cx, a, k, hint=None):
     return _F(cx, a, k)
 
 
+def _paired(cx, a, k):
+    """{F-atom monomial: x monomial} for the pairs  2^j x - 2^k F(x, k - j)  present in a (that is 2^j (x mod 2^(k-j)):
+    kept together inside a floor by 2^k, see _F)"""
+    pairs = {}
+    for m, c in a.items():
+        if abs(c) != (1 << k) or len(m) != 1 or m[0][1] != 1:
+            continue
+        d = cx.atoms[m[0][0]]
+        if d["kind"] != "F" or len(d["arg"]) != 1:
+            continue
+        (xm, xc), = d["arg"].items()
+        j = k - d["sh"]
+        if xc == 1 and j >= 1 and a.get(xm) == (1 << j) * (-1 if c > 0 else 1):
+            pairs[m] = xm
+    return pairs
+
+
 def _F(cx, a, k):
     out, inner = {}, {}
     K = 1 << k
+    # a term 2^j x whose range reaches 2^k is split as  2^k F(x, k-j) + 2^j (x mod 2^(k-j)):  the first part leaves the
+    # floor, the second is kept as the pair  2^j x - 2^k F(x, k-j)  (canonical: floor(1024 a0 - b0, 64) and
+    # floor(a0, 54) + floor((1024 a0 mod 2^64) - b0, 64) become the same expression)
+    keep = _paired(cx, a, k)
+    extra = {}
+    for m, c in list(a.items()):
+        ac = abs(c)
+        if ac & (ac - 1) == 0 and 1 < ac < K and len(m) == 1 and m[0][1] == 1 and m not in keep.values():
+            j = ac.bit_length() - 1
+            sg = 1 if c > 0 else -1
+            lo, hi = atom_range(cx, m[0][0])
+            if lo >= 0 and hi * ac >= K:
+                f = F(cx, {m: 1}, k - j)
+                if len(f) == 1 and list(f.values()) == [1] and len(list(f)[0]) == 1 and cx.atoms[list(f)[0][0][0]]["kind"] == "F":
+                    fm = list(f)[0]
+                    if fm not in a:
+                        extra = padd(extra, pscale(f, sg))
+                        a = padd(a, {fm: -sg * K})
+                        keep[fm] = m
     for m, c in a.items():
+        if m in keep:
+            inner[m] = c
+            continue
         q, r = divmod(c, K)
         if r > K // 2:              # balanced residue: -1 stays -1 (any integer split c = q K + r is valid)
             q, r = q + 1, r - K
@@ -408,6 +447,7 @@ def _F(cx, a, k):
             out[m] = q
         if r:
             inner[m] = r
+    out = padd(out, extra)
     if not inner:
         return out
     # floor((2^j X + R) / 2^k) == floor(X / 2^(k-j)) when 0 <= R < 2^j: the low part cannot carry
@@ -441,7 +481,7 @@ def _F(cx, a, k):
             return padd(out, F(cx, d["arg"], d["sh"] + k))
     lo, hi = prange(cx, inner)
     if -K <= lo and hi < K:
-        return padd(out, cx.atom("S", pkey(inner), {"arg": inner}))
+        return padd(out, cx.atom("S", pkey(inner), {"arg": inner, "sh": k}))
     return padd(out, cx.atom("F", pkey(inner), {"arg": inner, "sh": k, "k": (k,)}))
 
 
@@ -1122,11 +1162,35 @@ def subst_poly(a, at, q):
     return r
 
 
+def znorm(cx, a):
+    """x * [c x != 0] == x: an indicator of the non-zeroness of an atom is dropped from the monomials that contain the atom"""
+    out = {}
+    changed = False
+    for m, c in a.items():
+        present = set(at for at, _ in m)
+        m2 = []
+        for at, e in m:
+            d = cx.atoms[at]
+            if d["kind"] == "Z" and len(d["arg"]) == 1:
+                (am, ac), = d["arg"].items()
+                if len(am) == 1 and am[0][0] in present and am[0][0] != at:
+                    changed = True
+                    continue
+            m2.append((at, e))
+        m2 = tuple(m2)
+        v = out.get(m2, 0) + c
+        if v:
+            out[m2] = v
+        else:
+            out.pop(m2, None)
+    return out if changed else a
+
+
 def deep_resolve(cx, a, memo=None, depth=0):
     """resolve, also inside the arguments of derived atoms (an argument that simplifies on this path gives a simpler
     atom: F(a0 b7 + a1 b6 + ..., 64) with a1 == 0 is F(a0 b7 + ..., 64))"""
     memo = {} if memo is None else memo
-    a = resolve(cx, a)
+    a = znorm(cx, resolve(cx, a))
     if depth > 40:
         return a
     for at in sorted(atoms_of(a)):
@@ -1142,11 +1206,10 @@ def deep_resolve(cx, a, memo=None, depth=0):
             elif d["kind"] == "Z":
                 memo[at] = Z(cx, arg2)
             else:
-                lo, hi = prange(cx, d["arg"])
-                memo[at] = F(cx, arg2, max(abs(lo), hi + 1).bit_length() + 1)
+                memo[at] = F(cx, arg2, d["sh"])
         if memo[at] is not None:
             a = subst_poly(a, at, memo[at])
-    return resolve(cx, a)
+    return znorm(cx, resolve(cx, a))
 
 
 def resolve(cx, a):
@@ -1255,6 +1318,9 @@ def check_kernel(mod_text, fn, W, opdesc, spec, seed=0, samples=200):
     verdict = "proved"
     for p, rv in results:
         pc = p.cx
+        if not feasible(pc):
+            detail["infeasible_paths"] = detail.get("infeasible_paths", 0) + 1
+            continue                 # the path's conditions contradict each other: no input takes it
         if ret_base:
             got = p.mem.load(pc, "sret", 0, W // 8)
         elif rv is None:
@@ -1296,3 +1362,54 @@ def check_kernel(mod_text, fn, W, opdesc, spec, seed=0, samples=200):
         verdict = "undecided"
         detail["residue_terms"] = len(d)
     return verdict, detail
+
+
+# ------------------------------------------------------------------------------------------------------------ batch API
+def result_bits(mod_text, fn, layout=None):
+    """size in bits of the object a kernel returns (sret pointee, iN or a literal struct)"""
+    layout = layout or Layout(mod_text)
+    if fn.ret.strip() == "void":
+        t = fn.params[0][0].strip()
+        m = re.match(r"^(.*)\*", t)
+        return layout.parse(m.group(1).strip())[1] * 8
+    return layout.parse(fn.ret.strip())[1] * 8
+
+
+def run_plan(work, tag, src, plan, seed=0, jobs=None):
+    """compile one TU of by-value kernels (release semantics, vectorisers off, everything inlined) and decide each job
+    (fname, operands [(name, bits, limb bits)], result bits or None (taken from the IR), spec(cx, values, RW));
+    returns [(verdict, detail)] in plan order"""
+    import os, time
+    from . import tc
+    p, out = os.path.join(work, tag + ".cpp"), os.path.join(work, tag + ".ll")
+    open(p, "w").write(src)
+    cmd = [tc.CLANGXX] + tc.COMMON + ["-O2", "-DNDEBUG", "-fno-vectorize", "-fno-slp-vectorize", "-mllvm", "-inline-threshold=1000000", "-S", "-emit-llvm", p, "-o", out]
+    rc, so, se = tc.run(cmd)
+    if rc != 0:
+        raise tc.AnalysisBroken("limb-arithmetic TU %s does not compile: %s" % (tag, se[:1500]))
+    text = open(out).read()
+    mod = ir.parse_module(text)
+    layout = Layout(text)
+
+    def one(job):
+        fname, opds, RW, spec = job
+        fn = mod.functions.get(fname)
+        if fn is None:
+            return ("undecided", {"why": "kernel vanished"})
+        t0 = time.time()
+        try:
+            rw = RW or result_bits(text, fn, layout)
+            v, d = check_kernel(text, fn, rw, opds, lambda cx, vals: spec(cx, vals, rw), seed=seed)
+            d["result_bits"] = rw
+        except Undecided as e:
+            v, d = "undecided", {"why": str(e)[:200]}
+        except RecursionError:
+            v, d = "undecided", {"why": "recursion limit"}
+        d["wall"] = round(time.time() - t0, 2)
+        return (v, d)
+    return tc.fmap(one, plan, jobs)
+
+
+def sval(cx, a, w):
+    """the signed value of a w-bit two's-complement word"""
+    return padd(a, pscale(F(cx, a, w - 1), 1 << w), -1)
